@@ -1139,17 +1139,17 @@ inductive Reach (C : Crypto) (bs : Array Bytes) (pk : Bytes) (fork : Nat) : Core
       C.verify pk (signableAt C bs n fork) sig = true → i < c.tree.length →
       openCore C none (d.applyAll ((c.verifyAndApply C d (BlockGrow.honestBlockGrowth C bs c d i c.tree.length n us sig)).journal.take k)) = .ok (c', j) →
       Reach C bs pk fork (c', (d.applyAll ((c.verifyAndApply C d (BlockGrow.honestBlockGrowth C bs c d i c.tree.length n us sig)).journal.take k)).applyAll j)
-  | nextBlock (c : Core) (d : Disk) (n : Nat) (us a b : List (Nat × Nat)) (k : Nat) (sig : Bytes) : Reach C bs pk fork (c, d) → 0 < c.tree.length →
-      c.tree.length < n → n ≤ bs.size → Up c.tree.length 0 (rootsStack n).reverse us → us = a ++ (k, c.tree.length / 2 ^ k) :: b → sig.length = 64 →
-      C.verify pk (signableAt C bs n fork) sig = true →
-      Reach C bs pk fork ((c.verifyAndApply C d (BlockGrowGen.honestNextBlock C bs c.tree.fork c.tree.length n a b k sig)).core,
-        d.applyAll (c.verifyAndApply C d (BlockGrowGen.honestNextBlock C bs c.tree.fork c.tree.length n a b k sig)).journal)
-  | crashNextBlock (c : Core) (d : Disk) (n : Nat) (us a b : List (Nat × Nat)) (k : Nat) (sig : Bytes) (kk : Nat) (c' : Core) (j : List SOp) :
+  | newBlock (c : Core) (d : Disk) (i n : Nat) (us a b : List (Nat × Nat)) (k : Nat) (sig : Bytes) : Reach C bs pk fork (c, d) → 0 < c.tree.length →
+      c.tree.length < n → n ≤ bs.size → Up c.tree.length 0 (rootsStack n).reverse us → c.tree.length ≤ i → i < n → us = a ++ (k, i / 2 ^ k) :: b →
+      sig.length = 64 → C.verify pk (signableAt C bs n fork) sig = true →
+      Reach C bs pk fork ((c.verifyAndApply C d (BlockGrowGen.honestNewBlock C bs c.tree.fork i c.tree.length n a b k sig)).core,
+        d.applyAll (c.verifyAndApply C d (BlockGrowGen.honestNewBlock C bs c.tree.fork i c.tree.length n a b k sig)).journal)
+  | crashNewBlock (c : Core) (d : Disk) (i n : Nat) (us a b : List (Nat × Nat)) (k : Nat) (sig : Bytes) (kk : Nat) (c' : Core) (j : List SOp) :
       Reach C bs pk fork (c, d) → 0 < c.tree.length →
-      c.tree.length < n → n ≤ bs.size → Up c.tree.length 0 (rootsStack n).reverse us → us = a ++ (k, c.tree.length / 2 ^ k) :: b → sig.length = 64 →
-      C.verify pk (signableAt C bs n fork) sig = true →
-      openCore C none (d.applyAll ((c.verifyAndApply C d (BlockGrowGen.honestNextBlock C bs c.tree.fork c.tree.length n a b k sig)).journal.take kk)) = .ok (c', j) →
-      Reach C bs pk fork (c', (d.applyAll ((c.verifyAndApply C d (BlockGrowGen.honestNextBlock C bs c.tree.fork c.tree.length n a b k sig)).journal.take kk)).applyAll j)
+      c.tree.length < n → n ≤ bs.size → Up c.tree.length 0 (rootsStack n).reverse us → c.tree.length ≤ i → i < n → us = a ++ (k, i / 2 ^ k) :: b →
+      sig.length = 64 → C.verify pk (signableAt C bs n fork) sig = true →
+      openCore C none (d.applyAll ((c.verifyAndApply C d (BlockGrowGen.honestNewBlock C bs c.tree.fork i c.tree.length n a b k sig)).journal.take kk)) = .ok (c', j) →
+      Reach C bs pk fork (c', (d.applyAll ((c.verifyAndApply C d (BlockGrowGen.honestNewBlock C bs c.tree.fork i c.tree.length n a b k sig)).journal.take kk)).applyAll j)
 
 /-- **every reachable state satisfies the replica invariant and the ghost invariant** -/
 theorem reach_rp (C : Crypto) (hC : HashWF C) (hT : TreeWF C) (bs : Array Bytes) (pk : Bytes) (fork : Nat) (s : Core × Disk)
@@ -1236,20 +1236,20 @@ theorem reach_rp (C : Crypto) (hC : HashWF C) (hT : TreeWF C) (bs : Array Bytes)
     rcases r4 with r4 | r4
     · exact ⟨_, held, r4, by rw [r2]; exact hpk, by rw [r3]; exact hfk⟩
     · exact ⟨_, _, r4, by rw [r2]; exact hpk, by rw [r3]; exact hfk⟩
-  | nextBlock c d n us a b k sig _ hm0 hmn hn hup hsplit hsl hver ih =>
+  | newBlock c d i n us a b k sig _ hm0 hmn hn hup hmi hi hsplit hsl hver ih =>
     obtain ⟨m, held, hrp, hpk, hfk⟩ := ih
     have hlen : c.tree.length = m := hrp.rep.closed.sparse.length
     simp only at hpk hfk
     rw [← hpk, ← hfk] at hver
-    obtain ⟨c1, e, j0, hk⟩ := BlockGrowGen.nextblock_ok C hC hT bs c.tree.length n c d held (by rw [hlen]; exact hrp) hm0 hmn hn us hup sig hsl hver a b k hsplit
+    obtain ⟨c1, e, j0, hk⟩ := BlockGrowGen.newblock_ok C hC hT bs c.tree.length n c d held (by rw [hlen]; exact hrp) hm0 hmn hn us hup sig hsl hver i hmi hi a b k hsplit
     obtain ⟨_, r2, r3, r4⟩ := rp_of_ok C bs _ n c c1 d held _ _ e j0 (by rw [hlen]; exact hrp) hk
     exact ⟨_, _, r2, by rw [r3, hpk], by rw [r4, hfk]⟩
-  | crashNextBlock c d n us a b k sig kk c' j _ hm0 hmn hn hup hsplit hsl hver hopen ih =>
+  | crashNewBlock c d i n us a b k sig kk c' j _ hm0 hmn hn hup hmi hi hsplit hsl hver hopen ih =>
     obtain ⟨m, held, hrp, hpk, hfk⟩ := ih
     have hlen : c.tree.length = m := hrp.rep.closed.sparse.length
     simp only at hpk hfk
     rw [← hpk, ← hfk] at hver
-    obtain ⟨c1, e, j0, hk⟩ := BlockGrowGen.nextblock_ok C hC hT bs c.tree.length n c d held (by rw [hlen]; exact hrp) hm0 hmn hn us hup sig hsl hver a b k hsplit
+    obtain ⟨c1, e, j0, hk⟩ := BlockGrowGen.newblock_ok C hC hT bs c.tree.length n c d held (by rw [hlen]; exact hrp) hm0 hmn hn us hup sig hsl hver i hmi hi a b k hsplit
     obtain ⟨c2, j2, r1, r2, r3, r4⟩ := crash_recover C bs _ n c c1 d held _ _ e j0 (by rw [hlen]; exact hrp) hk kk
     rw [hopen] at r1
     have := Except.ok.inj r1
